@@ -29,6 +29,7 @@ fn main() {
         Some("ops-search") => ops::search(&v),
         Some("decode-search") => decode::search(&v),
         Some("getany-search") => nodes::getany_search(&v),
+        Some("genkill-search") => nodes::genkill_search(&v),
         Some("nodes-search") => nodes::nodes_search(&v),
         Some("lexer-search") => lexer::search(&v),
         Some("regs") => regs::run(args.get(1).map(String::as_str).unwrap_or(""), &v),
